@@ -6,6 +6,10 @@ ops: see `parseClusterOp` / `parseClusterTOp` in lean/Driver/Cluster.lean; `{"k"
 kills the process performing `op` right before its (k+1)-th file write (see suites/cluster.py); with `"torn": true` it is killed
 INSIDE that write: a version file is left EMPTY, for a data file the flag degenerates to the plain crash.
 
+`{"k": "failWrite", "op": <api op>, "after": k}`: the (k+1)-th file write of the call raises OSError, the handle lives on;
+`{"k": "stallBegin", "h": h, "op": <api op>, "after": k}` / `{"k": "stallEnd", "h": h}`: the call parks right before its (k+1)-th
+file write, alive and inside its lock section, until `stallEnd` (`parseClusterFOp`).
+
 `Sim` is a light-weight stand-in for a sequence of submitter rounds; it only serves to produce operation sequences that
 respect the role protocol and carry well-formed `update_job_status` arguments (as HpcSubmitter.run produces them).  Whether
 a run really respected the protocol is decided by the suite from the real return values, not by this module.
